@@ -1,5 +1,9 @@
 //! Positive examples: every zero-expected rule of the checker must fire on this crate in
 //! every run (DESIGN section 6). Nothing here is ever executed.
 #![allow(dead_code)]
-pub mod g_types;
+pub mod ctl_parse;
+pub mod direction;
 pub mod drop_cycle;
+pub mod engine;
+pub mod g_types;
+pub mod zobrist_values;
